@@ -42,6 +42,9 @@ def judge(ctx, rep, mm):
                 continue
             if indexed:
                 viol.append((k, s, "byte-identical (already indexed) resubmission accepted or took effect"))
+            elif s["same_parsed"] and k["kind"].startswith("OLVM"):
+                # OLVM transactions are protected by the account nonce: no encoding may execute twice
+                viol.append((k, s, "re-encoding of an executed OLVM transaction accepted or took effect again (account nonce)"))
             elif s["same_parsed"]:
                 if ctx.known_finding("C05.reencoding_replay", ""):
                     known_hits += 1
